@@ -181,7 +181,7 @@ void run_op(const Pool &P, const Op &op, Local &L, Digest &D) {
         D.num(L.find(needle2, cs)); D.num(L.find_last(needle2, cs)); D.num(T.contains(needle2, cs)); D.str(L.after_first(needle2, cs)); D.str(L.replace(needle2, "-", cs));
         std::vector<ST::string> v = L.split(needle2, 4, cs); D.num((long long)v.size());
     } break;
-    case 48: D.str(ST::format("{}|{>6}|{}", Nest{3 + op.b % 8, (int)op.c}, (int)op.a, Nest{1, 7})); break;
+    case 48: D.str(ST::format("{}|{>6}|{}", Nest{30 + op.b % 30, (int)op.c}, (int)op.a, Nest{1, 7})); break;
     case 47: { std::vector<ST::string> v = S.tokenize(kDelims[6 + op.b % 3]); D.num((long long)v.size()); for (auto &x : v) D.str(x); v = T.tokenize(kDelims[6 + op.c % 3]); D.num((long long)v.size()); } break;
     default: { ST::utf16_buffer w = S.to_utf16(); ST::string back(w); D.num(back == S); ST::wchar_buffer ww = T.to_wchar(); ST::string b2 = ST::string::from_wchar(ww.data(), ww.size()); D.num(b2 == T); } break;
     }
